@@ -173,6 +173,14 @@ def spectrum_cases(rng, n, ctx, nmax):
                 row[t0 + 1] = {'k': 'x', 'x': 'nan'}
             lam.append(row)
         cases.append({'id': 'spec-%04d-N%d-T%d-t0%d-%s' % (i, N, T, t0, sort), 'ev': 'spectrum', 'what': 'GEVP', 't0': t0, 'E': [rat(float(e)) for e in E], 'lam': lam})
+        # the vectors handed to projected() stay the caller's: projecting with normalisation first and without afterwards uses the same vectors
+        vs = _call(lambda: c.GEVP(t0, sort='Eigenvalue')[0])
+        if not isinstance(vs, Exception):
+            snap = [None if v is None else [rat(float(x)) for x in np.asarray(v, dtype=float)] for v in vs]
+            _call(lambda: c.projected(vs, normalize=True))
+            after = [None if v is None else [rat(float(x)) for x in np.asarray(v, dtype=float)] for v in vs]
+            cases.append({'id': 'spec-%04d-projected-frame' % i, 'ev': 'frame', 'what': 'projected(normalize=True) leaves the vectors it was given as they were',
+                          'before': [x if x is not None else [] for x in snap], 'after': [x if x is not None else [] for x in after]})
         ctx.nontrivial.add(('spec', N, T, t0, sort))
         # pruning to the lowest states preserves their energies
         if N >= 3:
